@@ -883,7 +883,8 @@ def rf54(run):
     run.rule(rule, 'collect_addr_uses (decides whether `addr q, p` can be eliminated by turning memory accesses through q into register '
                    'moves): over register type {i64, f, d, ld} x memory type x {load, store}, a store through the address makes the addr '
                    'non-eliminable unless it writes the whole register (a narrow store turned into an extension would replace the whole '
-                   'register instead of a part of it); loads never do')
+                   'register instead of a part of it); a load keeps the addr when it reads the register as another class (an integer load '
+                   'of an FP register or the reverse would become a move / extension between register files)')
     gen = run.tu('gen')
     f = gen.func('collect_addr_uses')
     run.functions_analysed.add(('gen', f.name))
@@ -917,7 +918,8 @@ def rf54(run):
                 except F.AnalysisBroken as ex:
                     raise F.AnalysisBroken('collect_addr_uses: %s' % ex)
                 rejected = env.get('res') == 0
-                exp = opn == 0 and mt not in fulls
+                cross = (mt in ('MIR_T_F', 'MIR_T_D', 'MIR_T_LD')) if rt == 'MIR_T_I64' else (mt != rt)
+                exp = (opn == 0 and mt not in fulls) or (opn == 1 and cross)
                 ok = rejected == exp
                 n += 1
                 run.ob(rule, (rt, mt, opn), ok, {'register type': rt, 'memory type': mt, 'access': 'store' if opn == 0 else 'load',
